@@ -127,4 +127,21 @@ def template_terms(name):  # noqa: C901
                         # the deeper occurrence first
                         out.append(T.ClsTerm("DC", "Shared", [(n, t, None) for n, t in reversed(sub)]))
         return out
+    if name.startswith("P7"):
+        # one CLASS S used at two depths of one class (shared, not cyclic): directly and inside a middle class / a container of
+        # the middle class, in both declaration orders (deeper use first / shallow use first)
+        out = []
+        flavours = ["DC", "NT", "TD"] if name == "P7q" else T.FLAVOURS
+        xs = T.leaves(T.K4) if name == "P7q" else K
+        for fl in flavours:
+            for x in xs:
+                S = T.ClsTerm(fl, "S", [("x", x, None)])
+                for fm in ("DC", "TD") if name == "P7q" else ("DC", "NT", "TD", "PC"):
+                    Mid = T.ClsTerm(fm, "Mid", [("s", S, None)])
+                    for mid in (Mid, T.Seq("list", Mid), T.Optional(Mid), T.Map("dict", T.LEAVES["str"], Mid)):
+                        for shallow in (S, T.Optional(S), T.Seq("list", S)):
+                            fs = [("mid", mid, None), ("s", shallow, None)]
+                            out.append(T.ClsTerm("DC", "Root", fs))
+                            out.append(T.ClsTerm("DC", "Root", list(reversed(fs))))
+        return out
     raise KeyError(name)
